@@ -9,7 +9,7 @@ wt=/tmp/evalrf.$$
 git -C /repo worktree add -q --detach $wt HEAD || exit 2
 cd $V
 export VERIF_EVIDENCE=/tmp/evidence.eval.$$   # evidence of these runs is scratch
-trap 'rm -rf /tmp/evidence.eval.$$; git -C /repo worktree remove --force '$wt'; env -u VERIF_REPO '$V'/build.sh >/dev/null 2>&1' EXIT   # the last line regenerates lean/Sipsp/Generated from /repo itself
+trap 'rm -rf /tmp/evidence.eval.$$; git -C /repo worktree remove --force '$wt'; env -u VERIF_REPO flock '$V'/.build/lock '$V'/build.sh >/dev/null 2>&1' EXIT   # the last line regenerates lean/Sipsp/Generated from /repo itself
 for id in $ids; do
   f=$V/refactors/$id.diff
   if ! git -C $wt apply --check $f 2>/dev/null; then echo "$id: patch does not apply"; continue; fi
